@@ -46,19 +46,44 @@ def r20_2(chk, P):
         chk.ob('R20.2', F.name, 'flag-store-after-refusal-test', ok, F.where(e), f'at the store: flag argument {fv}, blocksizes[0] {bs}')
 
 
+def _flag_appliers(P, F):
+    """calls in F that apply F's flag parameter to the links: direct vorbis_synthesis_halfrate(.., flag) calls, and calls of a
+    file-local helper that receives the flag and reaches vorbis_synthesis_halfrate.  -> (calls in F, [(G, set calls in G)])"""
+    fparam = F.params[1]['id'] if len(F.params) > 1 else None
+
+    def takes(G, c, pid):
+        return any(G.ex[G.strip_casts(x)].get('decl', {}).get('id') == pid for x in G.ex[c].get('c', []))
+    direct = [c for c in F.calls('vorbis_synthesis_halfrate') if len(F.ex[c]['c']) > 1 and takes(F, c, fparam)]
+    units = [(F, direct)] if direct else []
+    calls = list(direct)
+    for c in F.calls():
+        if F.ex[c]['callee'].get('d') in ('vorbis_synthesis_halfrate', F.name) or not takes(F, c, fparam):
+            continue
+        for t in P.call_targets(F, c):
+            G = P.fn.get(t)
+            if G is None or not G.static:
+                continue
+            # which parameter of G receives the flag
+            for i, a in enumerate(F.ex[c]['c']):
+                if F.ex[F.strip_casts(a)].get('decl', {}).get('id') == fparam and i < len(G.params):
+                    gs = [q for q in G.calls('vorbis_synthesis_halfrate') if len(G.ex[q]['c']) > 1 and takes(G, q, G.params[i]['id'])]
+                    if gs:
+                        calls.append(c)
+                        units.append((G, gs))
+    return calls, units
+
+
 def r20_3(chk, P):
     chk.rule('R20.3', 'in ov_halfrate, when vorbis_synthesis_halfrate refuses a link the function returns a negative code and, if '
              'the request was to set the flag, first resets every link: by calling ov_halfrate(vf,0) (which loops over all '
-             'links from 0) or by a loop of vorbis_synthesis_halfrate(vf->vi+k,0) whose index range includes 0')
+             'links from 0) or by a loop of vorbis_synthesis_halfrate(vf->vi+k,0) whose index range includes 0; the loop that '
+             'applies the flag (in ov_halfrate or in a file-local helper it hands the flag to) covers the links 0..links-1')
     F = P.need('ov_halfrate')
-    sk = k8.Skel(P, 'r')
-    calls = list(F.calls('vorbis_synthesis_halfrate'))
-    chk.require(calls, 'ov_halfrate no longer calls vorbis_synthesis_halfrate')
-    # the set loop: index starts at 0 and is bounded by vf->links
+    setcalls, units = _flag_appliers(P, F)
+    chk.require(setcalls, 'ov_halfrate no longer applies its flag through vorbis_synthesis_halfrate')
+    allcalls = list(F.calls('vorbis_synthesis_halfrate'))
     rb_rec = [c for c in F.calls('ov_halfrate') if common.const_val(F, F.ex[c]['c'][1]) == 0]
-    rb_loop = [c for c in calls if common.const_val(F, F.ex[c]['c'][1]) == 0]
-    # refusal returns: returns controlled by the (true) result of a vorbis_synthesis_halfrate call with the caller's flag
-    setcalls = [c for c in calls if c not in rb_loop]
+    rb_loop = [c for c in allcalls if common.const_val(F, F.ex[c]['c'][1]) == 0]
     refusal_rets = []
     for n in F.pos:
         if F.ex[n]['k'] != 'ret':
@@ -73,7 +98,6 @@ def r20_3(chk, P):
     ok = False
     msg = 'no roll-back found on the refusal path'
     if rb_rec:
-        # recursion under the refusal test, before the return
         c = rb_rec[0]
         conds = common.controlling_conditions(F, c)
         under = any(pol and any(x in setcalls for x in F.walk(cc)) for cc, pol in conds)
@@ -99,23 +123,24 @@ def r20_3(chk, P):
         ok = j is not None and j.lo == 0
         msg = f'roll-back loop resets links with index {j}' + ('' if ok else ': link 0 is not reset')
     chk.ob('R20.3', F.name, 'roll-back-covers-all-links', ok, F.where(refusal_rets[0]), msg)
-    # the set loop itself covers 0..links-1
-    A = absint.Analyzer(P, F)
-    idx = []
+    # the set loop itself covers 0..links-1 (in ov_halfrate or in the helper that holds it)
+    for (G, gs) in units:
+        A = absint.Analyzer(P, G)
+        idx = []
 
-    def obs2(A_, env, e, v):
-        if e in setcalls:
-            a0 = A_.F.strip_casts(A_.ex[e]['c'][0])
-            nd = A_.ex[a0]
-            if nd['k'] == 'bin' and nd['op'] == '+':
-                idx.append(A_.peek(env, nd['c'][1]))
-    A.observers.append(obs2)
-    A.run()
-    j = None
-    for x in idx:
-        j = absint.join(j, x)
-    ok = j is not None and j.lo == 0 and f'{VF}.links' in j.lt
-    chk.ob('R20.3', F.name, 'set-loop-covers-all-links', ok, F.where(setcalls[0]), f'link index {j}')
+        def obs2(A_, env, e, v, gs=gs):
+            if e in gs:
+                a0 = A_.F.strip_casts(A_.ex[e]['c'][0])
+                nd = A_.ex[a0]
+                if nd['k'] == 'bin' and nd['op'] == '+':
+                    idx.append(A_.peek(env, nd['c'][1]))
+        A.observers.append(obs2)
+        A.run()
+        j = None
+        for x in idx:
+            j = absint.join(j, x)
+        ok = j is not None and j.lo == 0 and f'{VF}.links' in j.lt
+        chk.ob('R20.3', G.name, 'set-loop-covers-all-links', ok, G.where(gs[0]), f'link index {j}')
 
 
 def r20_5(chk, P, E):
@@ -127,7 +152,8 @@ def r20_5(chk, P, E):
     init = P.key(P.need('vorbis_synthesis_init'))
     builders = [c for c in F.calls() if any(t in P.fn and init in P.reachable([t]) for t in P.call_targets(F, c))
                 and F.ex[c]['callee'].get('d') != 'ov_halfrate']
-    setters = [c for c in F.calls('vorbis_synthesis_halfrate')]
+    setters = [c for c in F.calls('vorbis_synthesis_halfrate')] + [c for c in _flag_appliers(P, F)[0] if c not in builders]
+    builders = [c for c in builders if c not in setters]
     bad = None
     for b in builders:
         p = cfg.search(F, F.pos[b], lambda n: n in setters, lambda n: False)
@@ -220,10 +246,30 @@ def r20_9(chk, P):
     fparam = F.params[1]['id'] if len(F.params) > 1 else None
     setcalls = [c for c in F.calls('vorbis_synthesis_halfrate')
                 if len(F.ex[c]['c']) > 1 and F.ex[F.strip_casts(F.ex[c]['c'][1])].get('decl', {}).get('id') == fparam]
-    chk.require(setcalls, 'ov_halfrate: no vorbis_synthesis_halfrate(.., flag) call found')
     loops = cfg.loops(F)
     hs = [h for h, body in loops.items() if any(F.pos[c][0] in body for c in setcalls)]
-    chk.require(hs, 'ov_halfrate: the flag is not applied in a loop over the links')
+    if not hs:
+        # the loop may live in a file-local helper that receives the flag: then the call is the unit that must be passed
+        helpers = []
+        for c in F.calls():
+            a = F.ex[c].get('c', [])
+            if not any(F.ex[F.strip_casts(x)].get('decl', {}).get('id') == fparam for x in a):
+                continue
+            for t in P.call_targets(F, c):
+                G = P.fn.get(t)
+                if G is not None and G.static and any(P.fn.get(k_) is not None and list(P.fn[k_].calls('vorbis_synthesis_halfrate'))
+                                                      for k_ in P.reachable([t])):
+                    helpers.append(c)
+        chk.require(helpers, 'ov_halfrate: neither a loop nor a helper applies the flag to the links')
+        dom = cfg.dominators(F)
+        succ_rets = [r for r in cfg.returns(F) if F.ex[r].get('c') and common.const_val(F, F.ex[r]['c'][0]) == 0]
+        chk.require(succ_rets, 'ov_halfrate: no literal success return')
+        for i, r in enumerate(sorted(succ_rets, key=lambda x: F.ex[x]['loc'])):
+            ok = any(cfg.pos_dominates(F, c, r) for c in helpers)
+            chk.ob('R20.9', F.name, f'success-only-after-all-links#{i}', ok, F.where(r),
+                   f'`{F.s(r)}` is behind the call that applies the flag to the links' if ok else
+                   f'`{F.s(r)}` is reachable without the call that applies the flag to the links')
+        return len(succ_rets)
     h = min(hs, key=lambda x: len(loops[x]))
     body = loops[h]
     # the loop covers all links: bound is vf->links and the induction variable starts at 0 (checked by R20.3/R09.1 already); here: exits
